@@ -265,17 +265,21 @@ Proof.
   - destruct k; repeat brk H; use_all;
       try (match type of H with ieach _ _ _ _ _ _ _ _ _ _ _ = _ => apply IHr in H end); fin_ext.
 Qed.
-Lemma irun_clause_extends fn b fr g c fr' g' :
-  irun_clause cm funs clos n fn b fr g = Res c fr' g' -> extends g g'.
-Proof. unfold irun_clause. intros H. repeat brk H; use_all; fin_ext. Qed.
+Lemma irunc_extends fn : forall l fr g c fr' g',
+  irunc cm funs clos n fn l fr g = Res c fr' g' -> extends g g'.
+Proof.
+  induction l as [|e b r IHr|b r IHr]; intros fr g c fr' g' H; cbn [irunc] in H.
+  - inversion H; subst. apply extends_refl.
+  - repeat brk H; use_all; try (match type of H with irunc _ _ _ _ _ _ _ _ = _ => apply IHr in H end); fin_ext.
+  - repeat brk H; use_all; try (match type of H with irunc _ _ _ _ _ _ _ _ = _ => apply IHr in H end); fin_ext.
+Qed.
 Lemma icases_extends fn cl cv : forall l fr g c fr' g',
   icases cm funs clos n fn cl cv l fr g = Res c fr' g' -> extends g g'.
 Proof.
   induction l as [|e b r IHr|b r IHr]; intros fr g c fr' g' H; cbn [icases] in H.
-  - repeat brk H;
-      try (match type of H with irun_clause _ _ _ _ _ _ _ _ = _ => apply irun_clause_extends in H end); fin_ext.
+  - apply irunc_extends in H. exact H.
   - repeat brk H; use_all;
-      try (match type of H with irun_clause _ _ _ _ _ _ _ _ = _ => apply irun_clause_extends in H end);
+      try (match type of H with irunc _ _ _ _ _ _ _ _ = _ => apply irunc_extends in H end);
       try (match type of H with icases _ _ _ _ _ _ _ _ _ _ = _ => apply IHr in H end); fin_ext.
   - apply IHr in H. exact H.
 Qed.
